@@ -107,7 +107,7 @@ def run(ctx):
 
 
     import minute_stream
-    minute_stream.stream(ctx, ctx.n(3, 100), [])       # minute bars, next_bar matching, an order from a scheduled function: the free-running world decides when and at what price it fills
+    minute_stream.stream(ctx, ctx.n(6, 100), [])       # minute bars, next_bar matching, an order from a scheduled function: the free-running world decides when and at what price it fills
 
 
 def replay(ctx, data):
